@@ -46,10 +46,12 @@ def _net(prop, q_cases, t_cases, max_size, subs=(None,), budget_ms=20000, excl=(
 
 
 PROPS["C13"] = {
-    "runs": _net("C13", 700, 12000, 120),
+    # half of the shards probe the shared expression cache with sibling constructs (option xkind, not carried by older tapes)
+    "runs": (lambda base: (lambda tier: [dict(r, shards=8) for r in base(tier)] + [dict(r, shards=8, opts={"xkind": "1"}) for r in base(tier)]))(_net("C13", 700, 12000, 120)),
     "rule": "Case: 2-8 boolean variables, 0-3 of them decided at root beforehand, then 1-5 requests among new_eq/new_conj/new_disj/new_at_most_one/new_exct_one "
             "with argument lists of length 0-12 (signs, duplicates, complementary pairs, TRUE/FALSE constants, root-decided arguments, results of earlier "
-            "eq/conj/disj requests, repeated and permuted requests hitting the expression cache). Oracle on the ACTUAL encoding (clause database + root values, hook H2), "
+            "eq/conj/disj requests, repeated and permuted requests hitting the expression cache; in half of the shards also the same argument list under the sibling construct - "
+            "conj <-> disj, at-most-one <-> exactly-one - because the cache is shared by all constructs). Oracle on the ACTUAL encoding (clause database + root values, hook H2), "
             "decided by Z3 and an exhaustive enumeration of all assignments of the argument variables consistent with the root units: eq/conj/disj literal == formula in every "
             "model and every assignment extends to a model; cardinality literal true => constraint holds, and every assignment satisfying the constraint is compatible with the "
             "literal being true. Non-trivial: a root-decided argument, or >= 4 arguments (product encoding), or a repeated/permuted request. Distinct by rendered request list.",
@@ -57,7 +59,7 @@ PROPS["C13"] = {
     "level_text": "Random request sequences; per case the space of argument assignments (<= 256) is enumerated completely against the clause database the code actually built. "
                   "Sampling over request shapes, exhaustive within a case.",
     "level_note": "Trusted: Z3 as a propositional SAT oracle, hook H2 (dump of clauses), set semantics for repeated arguments of cardinality constraints (DESIGN C13).",
-    "assumptions": ["argument lists of cardinality constraints are read as sets of literals", "results of at-most-one/exactly-one are not used as arguments of other requests"],
+    "assumptions": ["argument lists of cardinality constraints are read as multisets of literals (the language's truth table of a ^ a decides)", "results of at-most-one/exactly-one are not used as arguments of other requests"],
 }
 PROPS["C14"] = {
     "runs": _net("C14", 500, 8000, 120),
@@ -116,8 +118,9 @@ PROPS["C08"] = {
     "assumptions": ["LRA bounds are compared through lb()/ub(), which only change by assertion (the theory never tightens a variable's bound by row propagation)"],
 }
 PROPS["C09"] = {
-    "runs": _net("C09", 900, 18000, 500),
-    "rule": "Histories restricted to booleans + LRA: 1-6 variables plus derived variables new_var(lin), relation literals (5 relations, expression shapes: constants, single "
+    "runs": (lambda base: (lambda tier: [dict(r, shards=8) for r in base(tier)] + [dict(r, shards=8, opts={"setb": "1"}) for r in base(tier)]))(_net("C09", 900, 18000, 500)),
+    "rule": "Histories restricted to booleans + LRA: 1-6 variables plus derived variables new_var(lin) (half of the shards: more of them, and bounds set directly through the public "
+            "set_lb / set_ub at root level with values the model allows - the call and the following propagation must succeed and the bound joins the model), relation literals (5 relations, expression shapes: constants, single "
             "variable, sums of 2-4 terms with coefficients in +-{1,2,3,1/2,1/3}, repeated/cancelling variables, constants up to 20), implications between relation literals, "
             "assume/negate/pop/next/check orders. Oracles after every successful propagation: every assigned relation literal holds/fails on value() with infinitesimal semantics "
             "(exact GMP evaluation); every assigned theory atom (dump H2) holds on the slack's value; every derived/slack variable equals its defining expression; lb <= value <= ub; "
@@ -274,7 +277,7 @@ PROPS["C01"] = {
     "assumptions": ["int variables are LRA reals without integrality", "constraints in user-defined rule bodies are re-evaluated only for the generated rule shapes (L2p here, C03's rules there)"],
 }
 PROPS["C02"] = {
-    "runs": _prob("C02", 800, 20000, layers=("L0", "L1", "L3", "L2p", "L3b"), l0_mult=2, budget_ms=10000),
+    "runs": _prob("C02", 800, 20000, layers=("L0", "L1", "L3", "L2p", "L3b", "L3d"), l0_mult=2, budget_ms=10000),
     "rule": "Same generator as C01. (a) Free problems of layers L0/L1 are translated to Z3 (reals, booleans, finite-domain integers for object variables, field accesses as ite chains): "
             "'unsolvable' (false from solve(), unsolvable / inconsistency exception from read() or solve()) while Z3 finds a model is a violation. (b) Planted problems of all layers "
             "(a witness assignment / schedule is drawn first and every emitted constraint is true under it; layer L2p: rule problems with alternative subgoals interacting through a shared "
@@ -289,14 +292,17 @@ PROPS["C02"] = {
     "assumptions": ["search is bounded by a 20 s CPU budget per case; budget hits are inconclusive"],
 }
 PROPS["C04"] = {
-    "runs": _prob("C04", 1500, 40000, layers=("L3",), budget_ms=8000),
+    "runs": _prob("C04", 1500, 40000, layers=("L3", "L3d"), budget_ms=8000),
     "rule": "Planted timeline problems: 1-2 StateVariable subclasses with 1-2 predicates (optional minimal duration), 1-3 instances each, optional object variables over the instances, "
             "optional reusable resources; 2-7 facts / goals addressed to an instance or through a variable (tau still a variable), times given as arguments, as windows "
             "(start >= a, end <= b, duration >= d) or left free, zero-length atoms, atoms touching at an endpoint, explicit precedences, bounded horizon. Oracle on every reported solution: "
             "for each state-variable instance no two Active atoms whose tau allows that instance have max(start) < min(end) (exact, infinitesimal-aware). Non-trivial: >= 2 active atoms on "
             "one instance. Second clause of the statement: the timeline solver::extract_timelines() returns for each state-variable instance is compared with the atoms read through the API: "
             "its segments are exactly the intervals between consecutive distinct pulses (origin, horizon, starts and ends of the active atoms that may be on the instance), each segment lists "
-            "exactly the atoms covering it, and never more than one (counter extracted_segments_compared). Distinct by program text. All configurations of the run's matrix.",
+            "exactly the atoms covering it, and never more than one (counter extracted_segments_compared). Layer L3d (half of the shards): atoms that become active only through a search decision - 1-2 pinned facts on a "
+            "state variable and a disjunction statement with 2-3 branches, each placing one more pinned fact or goal on it; a branch is dead when its atom overlaps a pinned fact; with "
+            "one free branch the problem must be solved without overlap (the state variable has to prune the dead branches the search tries first), with dead branches only it must "
+            "not be reported solved. Distinct by program text. All configurations of the run's matrix.",
     "technique": "property-based testing with planted schedules; validity predicate over the reported plan",
     "level_text": "Random timeline problems; every reported plan is validated independently. Only reported solutions are judged. The timelines of solver::extract_timelines() are compared segment by segment with the atoms (added in the second build session).",
     "level_note": _PROB_TRUST,
@@ -344,24 +350,29 @@ PROPS["C17"] = {
     "assumptions": [],
 }
 PROPS["C16"]["runs"] = (lambda base: (lambda tier: base(tier) + [
-    {"cfg": "dbg", "harness": "h_prob", "sub": "eval", "cases": 2000 if tier == "quick" else 40000, "max_size": 300, "shards": 4, "budget_ms": 20000, "excl": list(GEN_EXCL)}]))(PROPS["C16"]["runs"])
+    {"cfg": "dbg", "harness": "h_prob", "sub": "eval", "cases": 2000 if tier == "quick" else 40000, "max_size": 300, "shards": 3, "budget_ms": 20000, "excl": list(GEN_EXCL)},
+    {"cfg": "dbg", "harness": "h_prob", "sub": "evalp", "cases": 2000 if tier == "quick" else 40000, "max_size": 300, "shards": 1, "budget_ms": 20000, "excl": list(GEN_EXCL), "opts": {"layer": "evalp"}}]))(PROPS["C16"]["runs"])
 PROPS["C16"]["rule"] = PROPS["C16"]["rule"].replace("Three parser-level sub-checks (evaluation of constant expressions is checked on solved programs, see the eval sub-run when present).",
     "Three parser-level sub-checks and an evaluation sub-check. eval: programs 'real v = <constant expression>;' / 'v == <constant expression>;' / 'bool c = <boolean expression over "
     "constants>;' (products and quotients of constants, constant * expression, unary minus, all relations, & ^ ! == != and, outside the known finding KF2, | and ->), solved in-process; "
-    "the reported value of every such variable must equal the harness's exact evaluation (non-trivial: a product, division, unary minus or boolean constant expression).")
+    "the reported value of every such variable must equal the harness's exact evaluation (non-trivial: a product, division, unary minus or boolean constant expression). "
+    "evalp: the same constant expressions in the other syntactic positions the statement names - a field initialiser (real f = e;), a constructor argument (new EA(e)), an argument in "
+    "a constructor's initialiser list (h(e)), a predicate argument (new EP(x: e)) and a rule body (y == x + (e)) - the field / parameter read back from the solution must equal "
+    "the exact value.")
 PROPS["C16"]["assumptions"] = ["literals stay within 18 digits", "eval sub-run: '|' and '->' are generated only where a disjunction is asserted (known finding KF2)"]
 # LeakSanitizer suppression files switched on by the exclusion names of the known leak findings (see check: env_for)
 LSAN_SUPP = {"solver_teardown_keeps_flaws": "tools/lsan-kf8.supp", "builtin_type_syntax_trees_kept": "tools/lsan-kf9.supp"}
 PROPS["C18"]["runs"] = (lambda base: (lambda tier: base(tier) + [
     {"cfg": "dbg", "harness": "h_prob", "cases": 600 if tier == "quick" else 20000, "max_size": 300, "shards": 2, "budget_ms": 20000, "excl": list(GEN_EXCL),
-     "opts": {"layer": l}, "replay_args": ["--crash-violation"]} for l in ("L0", "L1", "L2", "L3", "L3b")] + [
+     "opts": {"layer": l}, "replay_args": ["--crash-violation"]} for l in ("L0", "L1", "L2", "L3", "L3b", "L3d")] + [
     # the same programs with LeakSanitizer at the end of every case (about 0.3 s per case: matching the suppressions of the known leak findings needs symbolised stacks)
     {"cfg": "dbg", "harness": "h_prob", "sub": "leaks", "cases": 50 if tier == "quick" else 2500, "max_size": 300, "shards": 2 if tier == "quick" else 4, "budget_ms": 20000, "excl": list(GEN_EXCL),
-     "opts": {"layer": l, "leakcheck": "1"}, "leak": True, "replay_args": ["--crash-violation"]} for l in ("L0", "L1", "L2", "L3", "L3b")] + [
+     "opts": {"layer": l, "leakcheck": "1"}, "leak": True, "replay_args": ["--crash-violation"]} for l in ("L0", "L1", "L2", "L3", "L3b", "L3d")] + [
     {"kind": "fuzz", "cfg": "fz", "harness": "fz_lang", "sub": "fuzz", "cases": 6000 if tier == "quick" else 400000, "max_size": 4096, "shards": 8 if tier == "quick" else 16,
      "seed_corpus": "corpus/lang", "dict": "corpus/riddle.dict"}]))(PROPS["C18"]["runs"])
 PROPS["C18"]["rule"] += (" programs (valid typed programs of the C01 generator, layers L0/L1/L3, through read()+solve() in the Debug+ASan+UBSan build): any signal, assertion failure, std::terminate or "
-                         "sanitizer report is a violation; a std::exception is not; in the `leaks` sub-run LeakSanitizer runs at the end of every case (the allocation sites of the known findings KF8/KF9 "
+                         "sanitizer report is a violation; a std::exception is not; for layer L3d (problems with at most 3 alternatives and 5 atoms, a third of them unsolvable by construction) a case that "
+                         "exhausts its 20 s CPU budget is a violation as well (hang); in the `leaks` sub-run LeakSanitizer runs at the end of every case (the allocation sites of the known findings KF8/KF9 "
                          "are suppressed by allocation site, everything else is reported). "
                          "fuzz (libFuzzer, coverage-guided, clang ASan+UBSan build of the library): byte strings mutated from the empty corpus (odd shards) or from 40 example programs of "
                          "the repository (even shards) with a keyword dictionary; in-target oracles: parse returns or throws std::exception (crash / sanitizer report / 20 s time limit = violation), "
@@ -427,7 +438,9 @@ PROPS["C19"] = {
 
 def _c20(tier):
     q = tier == "quick"
-    return [{"cfg": "par-tsan", "harness": "h_net", "cases": 50 if q else 1500, "max_size": 500, "shards": 16, "budget_ms": 60000}]
+    base = {"cfg": "par-tsan", "harness": "h_net", "cases": 50 if q else 1500, "max_size": 500, "shards": 8, "budget_ms": 60000}
+    # half of the shards also create more derived variables with constants and set bounds directly through set_lb / set_ub
+    return [base, dict(base, opts={"setb": "1"})]
 
 
 PROPS["C20"] = {
@@ -438,7 +451,8 @@ PROPS["C20"] = {
             "every parallel pivot, when join() has returned, each touched row must equal the sequential update (the entering variable substituted by its expression, exact arithmetic, "
             "no zero coefficient stored) and the watch lists restricted to those rows must list exactly the variables of each row; (2) the number of tasks started == ended == rows at that "
             "moment (join returned with no task active); (3) any ThreadSanitizer report (data race, mutex misuse) ends the case abnormally = violation; (4) C09's model check of values and "
-            "bounds on the parallel build. Non-trivial: at least one pivot with >= 2 parallel row tasks. Distinct by rendered history.",
+            "bounds on the parallel build. In half of the shards the histories also create derived variables with constants and set bounds directly through the public set_lb / set_ub at "
+            "root level (so that rows with a non-zero constant leave the basis). Non-trivial: at least one pivot with >= 2 parallel row tasks. Distinct by rendered history.",
     "technique": "property-based testing under ThreadSanitizer with seeded schedule perturbation and an in-situ sequential reference for every parallel pivot",
     "level_text": "Schedules are sampled (OS scheduler + seeded perturbation at the hook points), not enumerated: this is the weakest claim of the set. The sequential reference is computed by the "
                   "harness from the rows before the pivot, so 'parallel = sequential' is checked at the only place where the two builds differ; learnt-clause sequences are not compared "
